@@ -258,6 +258,22 @@ class TolKey:
 import functools as _functools
 
 
+class Verdict:
+    """the result of a comparison that is good for truth testing only (like numpy.bool_ without arithmetic, or the
+    expression objects of symbolic libraries): rich comparisons may return any object, consumers call bool() on it"""
+
+    __slots__ = ("value",)
+
+    def __init__(self, value):
+        self.value = value
+
+    def __bool__(self):
+        return self.value
+
+    def __repr__(self):
+        return f"Verdict({self.value})"
+
+
 @_functools.total_ordering
 class LtOnly:
     """["L", key, uid]: a class that defines only ``__lt__`` (by key) and gets the other comparisons from
@@ -275,7 +291,27 @@ class LtOnly:
     def __lt__(self, other):
         if not isinstance(other, LtOnly):
             return NotImplemented
-        return self.key < other.key
+        return Verdict(self.key < other.key)
+
+    __hash__ = object.__hash__
+
+
+class LtPure:
+    """["LP", key, uid]: ``__lt__`` and nothing else (no total_ordering): ``a > b`` IS ``b < a`` here, equality is
+    identity - a consistent weak order whose ties are not ``==`` (what sort() and heapq ask for: only ``<``)"""
+
+    __slots__ = ("key", "uid")
+
+    def __init__(self, key, uid):
+        self.key, self.uid = key, uid
+
+    def __repr__(self):
+        return f"LtPure({self.key},{self.uid})"
+
+    def __lt__(self, other):
+        if not isinstance(other, LtPure):
+            return NotImplemented
+        return Verdict(self.key < other.key)
 
     __hash__ = object.__hash__
 
@@ -313,6 +349,8 @@ def mat(v):
         return StrictKey(v[1])
     if t == "L":
         return LtOnly(v[1], v[2])
+    if t == "LP":
+        return LtPure(v[1], v[2])
     if t == "T":
         return TolKey(v[1])
     if t == "E":
@@ -401,6 +439,8 @@ def sig(o):
         return ("T", o.k)
     if isinstance(o, StrictKey):
         return ("SK", o.k)
+    if isinstance(o, LtPure):
+        return ("LP", o.key, _uid(o.uid))
     if isinstance(o, LtOnly):
         return ("L", o.key, _uid(o.uid))
     if o is None:
